@@ -12,20 +12,120 @@ PROP = "C12"
 MODEL_TARGETS = ["Corr/WriteShow.vo"]
 THEOREMS = ["C12_table_checks", "C12_order_tables_agree", "C12_order_case_insensitive", "C12_upper_facts", "C12_order_symmetric", "C12_reader_order_is_build_item", "C12_write_factors", "C12_header_independent_of_data_options", "C12_header_text_independent", "C12_state_independent_of_presentation", "C12_written_lines", "C12_version_swap_meaning", "C12_swap_on_disk", "C12_same_content_options_unfold", "C12_same_formats_unfold", "C12_wrap_rel_unfold", "C12_read_wrap_rel_unfold", "C12_same_but_version_unfold", "C12_file_presentation_independent", "C12_file_wrap_independent", "C12_file_options_independent", "C12_written_state_but_version"]
 ASSUMPTIONS = [
-    "two numeric formats of equal precision print the same digits (oracle); only formats of equal precision are paired",
+    "two numeric formats of equal precision print the same digits (oracle); only formats of equal precision are paired: per column the two "
+    "configurations use the same conversion and precision (%.3f with %9.3f / %-9.3f / %+.3f / %09.3f, fmt with an equal column_fmt entry)",
     "the reader side of the equality is proved for the whole file on the domain file_hypsb of the file round trip (C12_file_*); outside that domain it rests on the correspondence",
+    "spacers made of blanks/tabs are the domain of the writer model and of file_hypsb; configurations with another spacer (',', ';', '') go "
+    "through the implementation-side oracle only (known finding nonblank-spacer)",
+    "an input on which write() raises with BOTH configurations has no outputs to compare; the bases are built/filtered so that this never "
+    "happens: if it does the run reports that the correspondence could not be evaluated",
 ]
 
-# pairs share the numeric format (equal precision); everything else varies
-def configs(rng):
-    fmt = rng.choice(["%.5f", "%.3f", "%.6e"])
+# A4: spacers that are not a non-empty run of blanks/tabs.  lasio writes them verbatim between the fields and declares no DLM: the
+# file reads back with other content (known finding nonblank-spacer); every oracle message of this class starts with the tag.
+NONBLANK_SPACERS = True
+NONBLANK_TAG = "NONBLANK-SPACER:"
+BLANK_SPACER_POOL = [" ", "  ", "\t"]
+NONBLANK_SPACER_POOL = [",", ";", ""]
+MIN_CORPUS = 50         # example files expected to pass corpus_files.corpus() (71 on the unchanged tree)
+
+
+def is_blank_spacer(s):
+    return s != "" and all(ch in " \t" for ch in s)
+
+
+def has_nonblank(*cfgs):
+    return any(not is_blank_spacer(c.get("spacer", " ")) for c in cfgs)
+
+
+# ---- numeric formats of equal precision ------------------------------------------------------------------------------------
+PRECISIONS = [".5f", ".3f", ".6e", ".1f", ".4g"]
+SHAPES = ["%%%s", "%%9%s", "%%12%s", "%%-9%s", "%%+%s", "%%09%s"]
+
+
+def variant(rng, p, plain=False):
+    return (SHAPES[0] if plain else rng.choice(SHAPES)) % p
+
+
+def format_pair(rng, ncols):
+    """two (fmt, column_fmt) settings that give every column the same conversion and precision, spelled differently:
+    other width/flags, fmt against an equal column_fmt entry, column_fmt for columns j > 0"""
+    p = rng.choice(PRECISIONS)
+    over = {}
+    if ncols and rng.random() < 0.4:
+        for j in rng.sample(range(ncols), min(ncols, rng.choice([1, 1, 2]))):
+            over[j] = rng.choice(PRECISIONS)
+    prec = lambda j: over.get(j, p)
+
     def one():
-        return dict(version=rng.choice([1.2, 2]), wrap=rng.choice([True, False]), fmt=fmt,
-                    len_numeric_field=rng.choice([None, -1, 14, 20]), spacer=rng.choice([" ", "  ", "\t"]),
-                    lhs_spacer=rng.choice([" ", "", "  "]), data_width=rng.choice([79, 40, 200]),
-                    header_width=rng.choice([60, 20, 90]), data_section_header=rng.choice(["~ASCII", "~A", "~Ascii data"]),
-                    mnemonics_header=rng.choice([False, False, True]))
+        mode = rng.choice(["plain", "variant", "variant", "entries", "inverse"])
+        if mode == "plain":
+            return "%" + p, {j: "%" + q for j, q in over.items()}, mode
+        if mode == "variant":
+            return variant(rng, p), {j: variant(rng, q) for j, q in over.items()}, mode
+        if mode == "entries":
+            # redundant column_fmt entries that repeat the precision of fmt
+            cf = {j: variant(rng, q) for j, q in over.items()}
+            for j in range(ncols):
+                if j not in cf and rng.random() < 0.5:
+                    cf[j] = variant(rng, p)
+            return variant(rng, p), cf, mode
+        # fmt of ANOTHER precision, never used: every column has its own entry
+        other = rng.choice([q for q in PRECISIONS if q != p])
+        return "%" + other, {j: variant(rng, prec(j)) for j in range(ncols)}, mode
     return one(), one()
+
+
+def one_config(rng, fmtspec):
+    fmt, cf, _ = fmtspec
+    spacers = NONBLANK_SPACER_POOL if (NONBLANK_SPACERS and rng.random() < 0.06) else BLANK_SPACER_POOL
+    c = dict(version=rng.choice([1.2, 2]), wrap=rng.choice([True, False]), fmt=fmt,
+             len_numeric_field=rng.choice([None, -1, 14, 20]), spacer=rng.choice(spacers),
+             lhs_spacer=rng.choice([" ", "", "  "]), data_width=rng.choice([79, 40, 200, 25]),
+             header_width=rng.choice([60, 20, 90]), data_section_header=rng.choice(["~ASCII", "~A", "~Ascii data"]),
+             mnemonics_header=rng.choice([False, False, True]))
+    if cf:
+        c["column_fmt"] = dict(cf)
+    return c
+
+
+def ncurves_of(text, rkw):
+    import lasio
+    try:
+        return len(lasio.read(text, **rkw).curves)
+    except Exception:
+        return 0
+
+
+def configs(rng, text="", rkw=None, kind=""):
+    """a pair of writer configurations of equal precision; `kind` directs some pairs at a class of inputs"""
+    f1, f2 = format_pair(rng, ncurves_of(text, rkw or {}))
+    c1, c2 = one_config(rng, f1), one_config(rng, f2)
+    if kind == "wide" and rng.random() < 0.75:
+        # 1.2 against 2.0, one line per depth step in both: rows longer than 255 characters
+        c1["version"], c2["version"] = rng.choice([(1.2, 2), (2, 1.2)])
+        c1["wrap"] = c2["wrap"] = False
+        if rng.random() < 0.7:
+            # the default layout: 11 characters per field, 7 fields in 79 columns, 28/35/42 = 4/5/6 x 7
+            f = rng.choice(["%.5f", "%.3f", "%.1f"])
+            for c in (c1, c2):
+                c["fmt"] = f
+                c.pop("column_fmt", None)
+                c["len_numeric_field"] = None
+                c["spacer"] = " "
+                c["data_width"] = 79
+    if kind == "overflow" and rng.random() < 0.75:
+        # wrap on against wrap off with samples one or two characters wider than their field
+        c1["wrap"], c2["wrap"] = rng.choice([(True, False), (False, True)])
+        w = rng.choice([79, 40, 25])
+        for c in (c1, c2):
+            c["fmt"] = "%.5f"
+            c.pop("column_fmt", None)
+            c["len_numeric_field"] = None
+            c["data_width"] = w
+            if not is_blank_spacer(c["spacer"]):
+                c["spacer"] = " "
+    return c1, c2
 
 
 def strip_vers_wrap(canon):
@@ -47,26 +147,55 @@ def written(text, wkw, rkw):
 
 
 def oracle(text, c1, c2, rkw):
+    """-> (violation text | None, "ok" | "not accepted ...").  Every pair whose input is readable and writable with at least one of
+    the two configurations is judged: both outputs must be readable, of the same shape, and of equal content."""
     import lasio
+    import numpy as np
+    tag = (NONBLANK_TAG + " ") if has_nonblank(c1, c2) else ""
     try:
-        t1 = written(text, c1, rkw)
-        t2 = written(text, c2, rkw)
+        lasio.read(text, **rkw)
     except Exception as e:
-        return None, "not accepted (%s)" % type(e).__name__
-    # lasio's own output must be readable, whatever the configuration
-    outs = []
-    for cfg, t in ((c1, t1), (c2, t2)):
+        return None, "not accepted (input unreadable: %s)" % type(e).__name__
+    texts, werr = [], []
+    for cfg in (c1, c2):
         try:
-            outs.append(rm.show_las(lasio.read(t, **rkw)))
+            texts.append(written(text, cfg, rkw))
+            werr.append(None)
         except Exception as e:
-            return "the file written with %r cannot be read back: %s: %s" % (cfg, type(e).__name__, str(e)[-100:]), "ok"
+            texts.append(None)
+            werr.append("%s: %s" % (type(e).__name__, str(e)[-100:]))
+    if werr[0] and werr[1]:
+        return None, "not accepted (write raises with both configurations: %s / %s)" % (werr[0], werr[1])
+    for k in (0, 1):
+        if werr[k]:
+            return tag + "write with %r raises %s although the same object is written with %r" % ((c1, c2)[k], werr[k], (c2, c1)[k]), "ok"
+    # lasio's own output must be readable, whatever the configuration
+    outs, shapes, rerr = [], [], []
+    for t in texts:
+        try:
+            las = lasio.read(t, **rkw)
+            outs.append(rm.show_las(las))
+            shapes.append([tuple(np.shape(c.data)) for c in las.curves])
+            rerr.append(None)
+        except Exception as e:
+            outs.append(None)
+            shapes.append(None)
+            rerr.append("%s: %s" % (type(e).__name__, str(e)[-100:]))
+    for k in (0, 1):
+        if rerr[k]:
+            other = "the other output is readable" if not rerr[1 - k] else "the other output is unreadable too"
+            return tag + "the file written with %r cannot be read back: %s (%s)" % ((c1, c2)[k], rerr[k], other), "ok"
+    if shapes[0] != shapes[1]:
+        return tag + ("the two outputs read back with different shapes: %d curves %r... with %r, %d curves %r... with %r"
+                      % (len(shapes[0]), shapes[0][:2], c1, len(shapes[1]), shapes[1][:2], c2)), "ok"
     a, b = strip_vers_wrap(outs[0]), strip_vers_wrap(outs[1])
     if a != b:
         j = next((p for p in range(min(len(a), len(b))) if a[p] != b[p]), 0)
-        return "contents differ near %r vs %r" % (a[max(0, j - 70):j + 70], b[max(0, j - 70):j + 70]), "ok"
+        return tag + "contents differ near %r vs %r" % (a[max(0, j - 70):j + 70], b[max(0, j - 70):j + 70]), "ok"
     return None, "ok"
 
 
+# ---- bases -----------------------------------------------------------------------------------------------------------------
 def mixed_case_base(rng):
     """a 1.2/2.0 base whose ~Well uses mixed-case spellings of the special mnemonics and ordinary items"""
     s = lasgen.basic_spec(rng)
@@ -84,28 +213,88 @@ def mixed_case_base(rng):
     return lasgen.render(s)[0]
 
 
+def wide_base(rng, k):
+    """28/35/42 curves: a data row is longer than 255 characters at every field width (the LAS 1.2 line limit)"""
+    nc = [28, 35, 42][k % 3]
+    s = lasgen.basic_spec(rng, ncurves=nc, nrows=rng.choice([2, 3]), version=["1.2", "2.0"][(k // 3) % 2])
+    tok = lambda: rng.choice([str(rng.randint(0, 999)), "%.2f" % rng.uniform(-99, 999), ".%d" % rng.randint(0, 99), "-%d.5" % rng.randint(0, 99)])
+    s.rows = [["%.1f" % (100 + 0.5 * i)] + [tok() for _ in range(nc - 1)] for i in range(len(s.rows))]
+    s.well[0] = ("STRT", "M", s.rows[0][0], "START")
+    s.well[1] = ("STOP", "M", s.rows[-1][0], "STOP")
+    s.params = s.params[:1]
+    s.wrap = "NO"
+    return lasgen.render(s)[0]
+
+
+WIDE_TOKENS = ["-1234.56789", "-4321.98765", "12345.12345", "-12345.6789", "98765.43211"]
+
+
+def overflow_base(rng):
+    """rows of equal length whose over-wide samples (11-12 characters under %.5f in a 10-character field) sit in different columns, hence
+    in different physical lines once the row is wrapped"""
+    nc = rng.choice([3, 4, 7, 8, 9, 10])
+    nr = rng.choice([4, 5, 6])
+    s = lasgen.basic_spec(rng, ncurves=nc, nrows=nr, version=rng.choice(["1.2", "2.0"]))
+    rows = []
+    for i in range(nr):
+        rows.append(["%.1f" % (100 + 0.5 * i)] + ["%d.%05d" % (rng.randint(1, 9), rng.randint(0, 99999)) for _ in range(nc - 1)])
+    wide_w = rng.choice(WIDE_TOKENS)
+    cols = list(range(1, nc))
+    rng.shuffle(cols)
+    for i in range(1, nr):
+        if rng.random() < 0.75:
+            j = cols[i % len(cols)]
+            rows[i][j] = wide_w if rng.random() < 0.8 else rng.choice(WIDE_TOKENS)
+    s.rows = rows
+    s.well[0] = ("STRT", "M", rows[0][0], "START")
+    s.well[1] = ("STOP", "M", rows[-1][0], "STOP")
+    s.wrap = "NO"
+    return lasgen.render(s)[0]
+
+
+def make_bases(rng, n_gen, n_mixed, n_wide, n_over):
+    bases = [("corpus:" + n, t) for n, t in corpus_files.corpus()]
+    for i in range(n_gen):
+        bases.append(("gen:%d" % i, corpus_files.generated(rng)))
+    for i in range(n_mixed):
+        bases.append(("mixed:%d" % i, mixed_case_base(rng)))
+    for i in range(n_wide):
+        bases.append(("wide:%d" % i, wide_base(rng, i)))
+    for i in range(n_over):
+        bases.append(("overflow:%d" % i, overflow_base(rng)))
+    return bases
+
+
+def kind_of(name):
+    return name.split(":")[0]
+
+
 def run(ctx):
     res = lib.Result()
     rng = ctx.rng
-    bases = [("corpus:" + n, t) for n, t in corpus_files.corpus()]
-    for i in range(80 if ctx.thorough else 25):
-        bases.append(("gen:%d" % i, corpus_files.generated(rng)))
-    for i in range(20 if ctx.thorough else 6):
-        bases.append(("mixed:%d" % i, mixed_case_base(rng)))
+    bases = make_bases(rng, *((80, 20, 12, 30) if ctx.thorough else (25, 6, 6, 10)))
+    n_corpus = sum(1 for n, _ in bases if n.startswith("corpus:"))
     per = 5 if ctx.thorough else 1
     cases, meta, kinds = [], [], set()
-    hist = {"version_differs": 0, "wrap_differs": 0, "not_accepted": 0, "preserve": 0}
+    hist = {"version_differs": 0, "wrap_differs": 0, "not_accepted": 0, "preserve": 0, "format_strings_differ": 0, "column_fmt": 0,
+            "nonblank_spacer": 0, "wide": 0, "wide_12_vs_20_nowrap": 0, "overflow": 0, "pairs": 0}
+    not_accepted = []
     for name, text in bases:
         for _ in range(per):
-            c1, c2 = configs(rng)
             rkw = {"mnemonic_case": rng.choice(["upper", "upper", "preserve", "lower"])}
+            c1, c2 = configs(rng, text, rkw, kind_of(name))
             bad, st = oracle(text, c1, c2, rkw)
             if st != "ok":
                 hist["not_accepted"] += 1
+                not_accepted.append("%s: %s" % (name, st))
                 continue
+            hist["pairs"] += 1
             if bad:
                 res.oracle_violations.append({"payload": {"text": text, "c1": c1, "c2": c2, "rkw": rkw}, "what": "%s: %s" % (name, bad)})
+            nonblank = has_nonblank(c1, c2)
             for cfg in (c1, c2):
+                if not is_blank_spacer(cfg["spacer"]):
+                    continue              # outside the writer model (ASSUMPTIONS): implementation-side oracle only
                 ops = [("R", rkw), ("W", cfg), ("R", rkw)]
                 c, r = wm.coq_case(text, ops)
                 cases.append(c)
@@ -114,6 +303,13 @@ def run(ctx):
             hist["version_differs"] += c1["version"] != c2["version"]
             hist["wrap_differs"] += c1["wrap"] != c2["wrap"]
             hist["preserve"] += rkw["mnemonic_case"] == "preserve"
+            hist["format_strings_differ"] += (c1["fmt"], c1.get("column_fmt")) != (c2["fmt"], c2.get("column_fmt"))
+            hist["column_fmt"] += bool(c1.get("column_fmt") or c2.get("column_fmt"))
+            hist["nonblank_spacer"] += nonblank
+            hist["wide"] += kind_of(name) == "wide"
+            hist["wide_12_vs_20_nowrap"] += (kind_of(name) == "wide" and c1["version"] != c2["version"]
+                                             and not c1["wrap"] and not c2["wrap"])
+            hist["overflow"] += kind_of(name) == "overflow"
     if ctx.build.model_ok:
         mism, err = lib.run_coq_cases("c12", [], wm.RUN_PIPE, cases, shard=8)
         res.corr_error = err
@@ -121,31 +317,68 @@ def run(ctx):
             res.mismatches.append({"base": meta[i][0], "ops": repr(meta[i][2]), "text": meta[i][1]})
     else:
         res.corr_error = "model not built"
+    # a class of accepted inputs that turns into rejected ones must not shrink the sample silently
+    if not_accepted or n_corpus < MIN_CORPUS:
+        res.corr_error = ((res.corr_error + "; ") if res.corr_error else "") + \
+            ("%d input(s) built as accepted were not accepted (%s); %d example files passed the corpus filter (expected >= %d)"
+             % (len(not_accepted), "; ".join(not_accepted[:3]), n_corpus, MIN_CORPUS))
     res.cases = len(cases)
     res.distinct_nontrivial = len(kinds)
-    res.rule = ("accepted inputs (corpus, generated, mixed-case ~Well mnemonics) x pairs of writer configurations that share the "
-                "numeric format and differ in version, wrap, field width, spacers, data width, header width, data-section header "
-                "style; contents compared apart from VERS and WRAP; non-trivial = distinct (base, versions, wraps, case)")
+    res.rule = ("accepted inputs (corpus, generated, mixed-case ~Well mnemonics, 28/35/42-curve files of both versions, rows with samples "
+                "wider than their field) x pairs of writer configurations of equal precision per column (the same format string, other "
+                "width/flags, fmt against equal column_fmt entries, column_fmt for j > 0) that differ in version, wrap, field width, "
+                "spacers (blank, tab, and ',' ';' '' on the implementation side), data width, header width, data-section header style; "
+                "both outputs must be readable, of one shape, and equal apart from VERS and WRAP; non-trivial = distinct (base, versions, "
+                "wraps, case)")
     res.samples = [meta[0][0], repr(meta[0][2][1][1])] if meta else []
     res.histogram = hist
     return res
 
 
+def fix_cfg(c):
+    c = dict(c)
+    if c.get("column_fmt"):
+        c["column_fmt"] = {int(a): b for a, b in c["column_fmt"].items()}
+    if "version" in c and c["version"] == 2.0:
+        c["version"] = 2
+    return c
+
+
 def replay(payload):
-    bad, st = oracle(payload["text"], payload["c1"], payload["c2"], payload["rkw"])
+    bad, st = oracle(payload["text"], fix_cfg(payload["c1"]), fix_cfg(payload["c2"]), payload["rkw"])
     return bad is not None, bad or "ok"
+
+
+def finding_of(payload):
+    """nonblank-spacer: at least one of the two configurations has a spacer that is not a run of blanks/tabs, the pair fails, and the
+    same pair with that spacer replaced by ' ' does not fail (anything else wrong on the payload is another violation)"""
+    try:
+        c1, c2 = fix_cfg(payload["c1"]), fix_cfg(payload["c2"])
+        if not has_nonblank(c1, c2):
+            return None
+        bad, st = oracle(payload["text"], c1, c2, payload["rkw"])
+        if st != "ok" or not bad or not bad.startswith(NONBLANK_TAG):
+            return None
+        d1, d2 = dict(c1), dict(c2)
+        for d in (d1, d2):
+            if not is_blank_spacer(d.get("spacer", " ")):
+                d["spacer"] = " "
+        bad2, st2 = oracle(payload["text"], d1, d2, payload["rkw"])
+        if st2 == "ok" and bad2 is None:
+            return "nonblank-spacer"
+    except Exception:
+        return None
+    return None
 
 
 def search(ctx, res):
     import random
     rng = random.Random(ctx.seed + 51)
-    bases = [("corpus:" + n, t) for n, t in corpus_files.corpus()] + [("gen", corpus_files.generated(rng)) for _ in range(200)] + \
-        [("mixed", mixed_case_base(rng)) for _ in range(50)]
+    bases = make_bases(rng, 200, 50, 12, 60)
     for _ in range(4):
         for name, text in bases:
-            c1, c2 = configs(rng)
             rkw = {"mnemonic_case": rng.choice(["upper", "preserve", "lower"])}
+            c1, c2 = configs(rng, text, rkw, kind_of(name))
             bad, st = oracle(text, c1, c2, rkw)
             if st == "ok" and bad:
                 yield {"payload": {"text": text, "c1": c1, "c2": c2, "rkw": rkw}, "what": "%s: %s" % (name, bad)}
-                return
